@@ -7,6 +7,7 @@ line, i.e. the contract of __infer_type, which is only bounded-checked (B1): dir
 non-repeatable, anchor-free patterns repeatable."""
 from .. import vcrun
 from . import _b1
+from ._groups import EXC
 
 LEVEL = "proof"
 P = "pregex.core.pre.Pregex."
@@ -15,7 +16,7 @@ FUNCS = [P + n for n in ("optional", "indefinite", "one_or_more", "exactly", "at
 
 
 def run(rep, tier):
-    vcrun.run_functions(rep, FUNCS, tier)
+    vcrun.run_functions(rep, FUNCS + EXC, tier)
     _b1.run(rep, tier, ["flag", "total"], "repeatable flag of every emitted text")
     rep.trusted += ["assumed contract of Pregex.__infer_type for the VALUE of the repeatable flag: bounded stand-in B1 only",
                     "VC generator pvc/symex.py + encoding E1-E12", "z3 5.1"]
